@@ -122,6 +122,11 @@ func setupProfile(e *Env, o core.RunOpts) error {
 		return setupOracle(e, o)
 	case "C03", "C05", "C10":
 		return setupTSS(e, o)
+	case "C09":
+		if e.Ch.Bool("cfg.c09.tss", 500) {
+			return setupTSS(e, o)
+		}
+		return setupOracle(e, o)
 	}
 	return fmt.Errorf("no profile for %s", o.Prop)
 }
@@ -163,7 +168,7 @@ func setupOracle(e *Env, o core.RunOpts) error {
 		act.ActivateP = 700
 	}
 	e.Actors = append(e.Actors, act)
-	e.Monitors = append(e.Monitors, NewC01())
+	e.Monitors = append(e.Monitors, NewC01(), &C09{})
 	e.MaxSteps = e.Ch.Range("cfg.steps", 30, 90)
 	if o.Thorough {
 		e.MaxSteps = e.Ch.Range("cfg.steps", 40, 160)
@@ -210,7 +215,7 @@ func setupTSS(e *Env, o core.RunOpts) error {
 	e.Actors = append(e.Actors,
 		&TSSActor{Pool: pool, ByzP: e.Ch.Intn("cfg.tss.byz", 500), ReactP: 100 + e.Ch.Intn("cfg.tss.react", 400), OverDEP: e.Ch.Intn("cfg.tss.overde", 120)},
 		&SigRequester{Rate: 200 + e.Ch.Intn("cfg.sigreq.rate", 600), MaxOpen: 1 + e.Ch.Intn("cfg.sigreq.maxopen", 5), Senders: w.Users[size:], LimitW: []int{70, 10, 10, 10}, RollbackP: 80})
-	e.Monitors = append(e.Monitors, &C05{}, &C03{}, &C10{})
+	e.Monitors = append(e.Monitors, &C05{}, &C03{}, &C10{}, &C09{WithTSS: true})
 	e.MaxSteps = e.Ch.Range("cfg.steps", 30, 90)
 	if o.Thorough {
 		e.MaxSteps = e.Ch.Range("cfg.steps", 40, 160)
